@@ -109,6 +109,17 @@ def _confirm_and_minimise(args):
             return False
         return any((r, x['class']) == wcls for r, x in fl)
 
+    if d.get('no_minimise'):
+        # expensive cases (CPU-limit hits): confirmed twice more, reported as found
+        for _ in range(2):
+            if not fails_class(case):
+                return ('flaky', rel, d, case)
+        sig = make_sig(case, rel, d)
+        rep = case.replay()
+        rep['relation'] = rel
+        rep['diff'] = {k: d.get(k) for k in ('class', 'at', 'got', 'in', 'out', 'index', 'detail') if k in d}
+        rep['src_preview'] = core.preview(case.src, 1200)
+        return ('ok', sig, rep)
     for _ in range(3):
         if not fails_exact(case):
             return ('flaky', rel, d, case)
